@@ -4,6 +4,7 @@ from typing import Any, Callable, Optional, Sequence
 
 from ..buffer import Buffer, size_uint_var
 from ..tls import Epoch
+from .configuration import SMALLEST_MAX_DATAGRAM_SIZE
 from .crypto import CryptoPair
 from .logger import QuicLoggerTrace
 from .packet import (
@@ -167,6 +168,17 @@ class QuicPacketBuilder:
         if self.remaining_buffer_space < capacity or (
             frame_type not in NON_IN_FLIGHT_FRAME_TYPES
             and self.remaining_flight_space < capacity
+        ):
+            raise QuicPacketBuilderStop
+
+        # A datagram which needs padding because of this INITIAL packet is
+        # padded up to the flight capacity. If that is less than the smallest
+        # allowed maximum datagram size, the packet cannot be sent for now;
+        # see RFC 9000 section 14.1.
+        if (
+            self._packet_type == QuicPacketType.INITIAL
+            and (self._is_client or frame_type not in NON_ACK_ELICITING_FRAME_TYPES)
+            and self._flight_capacity < SMALLEST_MAX_DATAGRAM_SIZE
         ):
             raise QuicPacketBuilderStop
 
